@@ -87,23 +87,28 @@ func params() []param {
 		)
 	}
 	// conics: six asymmetric standard-parallel pairs incl. 1SP and southern cones
-	pairs := [][2]float64{{33, 45}, {45, 33}, {20, 60}, {-20, -50}, {40, 40}, {10, 30}}
+	// (index 6: one parallel away from the latitude of origin; index 7: +lat_2 omitted)
+	pairs := [][2]float64{{33, 45}, {45, 33}, {20, 60}, {-20, -50}, {40, 40}, {10, 30}, {50, 50}, {-35, -35}}
 	for _, pr := range []string{"lcc", "aea", "eqdc"} {
 		for i, sp := range pairs {
 			region := "north"
 			if sp[0] < 0 {
 				region = "south"
 			}
-			lat0 := []float64{0, 38, -30, 23, 40, 5}[i]
-			lon0 := []float64{-96, 13.5, 100, 25, -96, 0}[i]
-			origin := []string{"+x_0=0 +y_0=0", "+x_0=400000 +y_0=400000", "+x_0=0 +y_0=0", "+x_0=1000000 +y_0=-500000", "", "+x_0=600000 +y_0=0"}[i]
+			lat0 := []float64{0, 38, -30, 23, 40, 5, 35, -20}[i]
+			lon0 := []float64{-96, 13.5, 100, 25, -96, 0, 10, -60}[i]
+			origin := []string{"+x_0=0 +y_0=0", "+x_0=400000 +y_0=400000", "+x_0=0 +y_0=0", "+x_0=1000000 +y_0=-500000", "", "+x_0=600000 +y_0=0", "+x_0=200000 +y_0=100000", "+x_0=0 +y_0=0"}[i]
+			if i == 7 {
+				p = append(p, param{pr, fmt.Sprintf("+proj=%s +lat_1=%g +lat_0=%g +lon_0=%g %s", pr, sp[0], lat0, lon0, origin), lon0, region})
+				continue
+			}
 			if pr == "lcc" && sp[0] == sp[1] {
 				p = append(p, param{pr, fmt.Sprintf("+proj=lcc +lat_1=%g +lat_0=%g +lon_0=%g %s", sp[0], lat0, lon0, origin), lon0, region})
 				continue
 			}
 			if sp[0] == sp[1] && pr != "lcc" {
 				// one standard parallel given twice
-				p = append(p, param{pr, fmt.Sprintf("+proj=%s +lat_1=%g +lat_2=%g +lat_0=%g +lon_0=%g +x_0=0 +y_0=0", pr, sp[0], sp[1], lat0, lon0), lon0, region})
+				p = append(p, param{pr, strings.TrimSpace(fmt.Sprintf("+proj=%s +lat_1=%g +lat_2=%g +lat_0=%g +lon_0=%g %s", pr, sp[0], sp[1], lat0, lon0, origin)), lon0, region})
 				continue
 			}
 			p = append(p, param{pr, strings.TrimSpace(fmt.Sprintf("+proj=%s +lat_1=%g +lat_2=%g +lat_0=%g +lon_0=%g %s", pr, sp[0], sp[1], lat0, lon0, origin)), lon0, region})
